@@ -33,6 +33,7 @@ var selValues = [][][]string{
 		{"X-B", "X-B", "X-B"},
 		{"v\xff", "v\xff", "v\xff"}, // classes 4 and 5: two different values that are not UTF-8
 		{"v\xfe", "v\xfe", "v\xfe"},
+		{"1\n2", "1\n2", "1\n2"}, // class 6: two field lines, "1" and "2" (rendered by buildRequest)
 	},
 	{ // X-B
 		{"2", "2", "2"},
@@ -200,11 +201,20 @@ func (c *concretiser) respDirectives(a *Ans) []directive {
 	var ds []directive
 	for _, f := range a.Fl {
 		if f == "no-cache" && a.Ncf == 1 {
-			ds = append(ds, directive{"no-cache", `"X-Secret"`, true})
+			ds = append(ds, directive{"no-cache", []string{`"X-Secret"`, `"x-secret"`, `"X-SECRET"`, `"x-other , X-secret"`}[c.rnd.Intn(4)], true})
 			continue
 		}
 		if f == "no-cache" && a.Ncf == 2 { // a validator is among the named fields
-			ds = append(ds, directive{"no-cache", `"ETag, X-Secret"`, true})
+			ds = append(ds, directive{"no-cache", []string{`"ETag, X-Secret"`, `"etag, x-secret"`}[c.rnd.Intn(2)], true})
+			continue
+		}
+		if f == "no-cache" && a.Ncf == 0 && a.Sp == 5 {
+			// said twice, once with field names: the unqualified form is still there
+			if c.rnd.Intn(2) == 0 {
+				ds = append(ds, directive{name: f}, directive{"no-cache", `"X-Secret"`, true})
+			} else {
+				ds = append(ds, directive{"no-cache", `"X-Secret"`, true}, directive{name: f})
+			}
 			continue
 		}
 		ds = append(ds, directive{name: f})
